@@ -2,8 +2,8 @@ package main
 
 import (
 	"fmt"
-	"go/token"
 	"go/constant"
+	"go/token"
 	"sort"
 	"strings"
 
